@@ -1,7 +1,7 @@
 (* Properties_C11.v -- any pattern string is safely rejected or compiled; matching stays in bounds.
    Statements only; proofs are in ReProps*.v. *)
 From Coq Require Import List NArith ZArith.
-From NV Require Import Bytes GenConsts ReSyntax ReParse ReEmit ReVM ReSem RsetDefs ReProps ReProps2 ReProps3 ReProps4 ReProps5 ReProps6 ReProps7 ReProps8.
+From NV Require Import Bytes GenConsts ReSyntax ReParse ReEmit ReVM ReSem RsetDefs ReProps ReProps2 ReProps3 ReProps4 ReProps5 ReProps6 ReProps7 ReProps8 ReProps10.
 Import ListNotations.
 
 (* for EVERY byte string: if regcomp accepts it, the emitted program (MARK 0, code, MARK 1, MATCH)
@@ -37,13 +37,18 @@ Print Assumptions C11_wf_prog.
    the pc fuel |P|+1 per activation is never exhausted (the pc strictly increases within an
    activation, the recursion is cut at depth NDEPT) and the atom matcher never exhausts its own fuel
    (literal comparison |lit|+1, bracket scan |brk|+1, class bodies contain no nested class).
-   Not covered: the start-position loop of regexec has its own fuel |line|+2 (each step advances by
-   uc_len >= 1 until the terminator); its exhaustion would be printed as nofuel by the model driver
-   and is reported by the check. *)
+   The start-position loop of regexec is covered by C11_regexec_terminates below. *)
 Theorem C11_terminates : forall (pat : bytes) (p : prog) (flg : Z) (line : bytes), regcomp pat = Ok (Some p) ->
   forall d pc s, pc < length (code p) -> fst (rec st (atom_step flg line) mark_step (code p) d pc s) <> Abort.
 Proof. exact terminates. Qed.
 Print Assumptions C11_terminates.
+
+(* regexec as a whole: on the program of every accepted pattern and every NUL-free line the
+   start-position loop finishes within its fuel |line|+2 and no attempt runs out of fuel *)
+Theorem C11_regexec_terminates : forall pat p cflg line nsub eflg d,
+  regcomp pat = Ok (Some p) -> Forall (fun b => b <> 0%N) line -> fst (regexec_d d p cflg line nsub eflg) <> NoFuel.
+Proof. exact regexec_terminates. Qed.
+Print Assumptions C11_regexec_terminates.
 
 (* for EVERY accepted pattern string, every line, flags and depth: each (so, eo) pair regexec reports is
    -1/-1 or satisfies 0 <= so <= eo <= length of the line (positions only grow and never pass the end
